@@ -67,7 +67,7 @@ def main(tier, seed):
             deep.append(r)
     run.notes["deep_worlds_from_simulation"] = len(deep)
     if tier == "quick":
-        rows = [r for i, r in enumerate(rows) if r["nedges"] <= 1 or (i + seed) % 4 == 0]
+        rows = [r for i, r in enumerate(rows) if r["nedges"] <= 1 or (i + seed) % 7 == 0]
     items = rows + deep
     traces = matrix.judge(run, "ImportsTrace", "adapters.imports_", "run_row", items, sig, corrupt, what=what, chunk=250,
                           nontrivial=lambda t: t["item"]["root"] and json.dumps([t["item"], t["steps"][0]["a"]["what"], t["steps"][1]["a"]["what"]]),
@@ -95,7 +95,7 @@ def main(tier, seed):
                        "(relative, ./relative, root-relative, absolute, scheme-relative) x media on the edge, plus simulated "
                        "behaviours up to 6 edges; on every world: getUrls / replaceUrls on one file's sheet, resolveImports read from "
                        "the DOM, from its text, from its minified text, or with iso-8859-1 targets (by row number); csscombine on real "
-                       "files for a slice" % ("2 (a quarter of the 2-edge worlds per quick run)" if tier == "quick" else "2"))
+                       "files for a slice" % ("2 (a seventh of the 2-edge worlds per quick run)" if tier == "quick" else "2"))
     run.assumptions += ["RFC 3986 resolution is specified in the contract (NormSegs/Resolve); URL strings are split by urllib.parse.urlsplit",
                         "a group may be wrapped in @media only if it consists of style rules (and comments); otherwise the @import is kept",
                         "cyclic imports are C01's subject; the machine adds edges along a fixed order of files",
